@@ -34,6 +34,7 @@ type state struct {
 	root string
 	n    int
 	dir  string
+	seen map[string]bool // salts and nonces of every file the real code wrote in this run
 
 	have       bool   // the harness put/created a file in dir
 	cur        []byte // its bytes
@@ -53,8 +54,8 @@ func (s *state) reset() {
 		_ = os.RemoveAll(s.dir)
 	}
 	s.n++
-	r := s.root
-	*s = state{root: r, n: s.n}
+	r, seen := s.root, s.seen
+	*s = state{root: r, n: s.n, seen: seen}
 	s.dir = filepath.Join(s.root, fmt.Sprintf("s%d", s.n))
 	_ = os.MkdirAll(s.dir, 0o700)
 }
@@ -190,11 +191,35 @@ func (s *state) create(c *hx.Ctx, pass []byte) string {
 	}
 	s.cur, _ = os.ReadFile(s.path())
 	s.have, s.rightKnown, s.right, s.sk, s.origPub, s.pristine, s.known = true, true, cp(pass), nil, pub, true, false
+	s.fresh(c)
 	if fi, err := os.Stat(s.path()); err == nil && fi.Mode().Perm()&0o077 != 0 {
 		c.Report("C19/permissions/key-file-mode", fmt.Sprintf("key file mode %o is accessible to group/others", fi.Mode().Perm()))
 	}
 	c.Hit("create:ok")
 	return okObs(matching, false, nil, nil)
+}
+
+// fresh: salt and nonce of a file the real code has just written must be fresh random values
+// (a repeated nonce under one key breaks AES-GCM; a fixed salt defeats the KDF's purpose).
+func (s *state) fresh(c *hx.Ctx) {
+	var k kd
+	if json.Unmarshal(s.cur, &k) != nil {
+		c.Report("C19/format/written-file-unreadable", "the file written by the real code is not a JSON object of the documented shape")
+		return
+	}
+	if len(k.Nonce) != 12 || len(k.Salt) == 0 || len(k.PubKeyBytes) != 32 || len(k.PrivKeyEncrypted) == 0 {
+		c.Report("C19/format/written-file-incomplete", fmt.Sprintf("written file has nonce %d bytes, salt %d, pub_key %d, priv_key_encrypted %d", len(k.Nonce), len(k.Salt), len(k.PubKeyBytes), len(k.PrivKeyEncrypted)))
+	}
+	for _, kv := range []struct {
+		n string
+		v []byte
+	}{{"nonce", k.Nonce}, {"salt", k.Salt}} {
+		key := kv.n + ":" + string(kv.v)
+		if s.seen[key] {
+			c.Report("C19/randomness/"+kv.n+"-reused", "two key files written by the real code carry the same "+kv.n)
+		}
+		s.seen[key] = true
+	}
 }
 
 func (s *state) fileExists() bool { _, err := os.Stat(s.path()); return err == nil }
@@ -242,7 +267,7 @@ func (s *state) export(c *hx.Ctx, pass []byte) string {
 	}
 	c.Hit("export:ok")
 	if s.have && s.rightKnown && !isRight {
-		c.Report("C19/wrong-passphrase/export-"+s.wrongPassCause(pass), "ExportPrivateKey returned the key for a passphrase other than the one it was saved under")
+		c.Report("C19/wrong-passphrase/"+s.wrongPassCause(pass), "ExportPrivateKey returned the key for a passphrase other than the one it was saved under")
 	}
 	pubTok := "?"
 	if pk, err := crypto.UnmarshalEd25519PrivateKey(cp(out)); err == nil {
@@ -300,6 +325,7 @@ func (s *state) importKey(c *hx.Ctx, o hx.Op) string {
 	if fromOp {
 		s.known = true
 	}
+	s.fresh(c)
 	if fi, err := os.Stat(s.path()); err == nil && fi.Mode().Perm()&0o077 != 0 {
 		c.Report("C19/permissions/key-file-mode", fmt.Sprintf("key file mode %o is accessible to group/others", fi.Mode().Perm()))
 	}
@@ -401,7 +427,7 @@ func runC19(c *hx.Ctx) {
 		panic(err)
 	}
 	defer os.RemoveAll(root)
-	s := &state{root: root}
+	s := &state{root: root, seen: map[string]bool{}}
 	s.reset()
 	for {
 		o, ok := c.Next()
